@@ -8,6 +8,7 @@ import (
 	"go/ast"
 	"go/constant"
 	"go/token"
+	"go/types"
 	"sort"
 	"strings"
 	"unicode"
@@ -45,6 +46,15 @@ func infixTable(w *World) (map[string]infixEntry, *infixEntry, error) {
 			sw = s
 		}
 	})
+	if sw == nil {
+		// the same table as data: `if info, ok := TABLE[op]; ok { return info }; return <default literal>` over a
+		// package-level map literal that nothing else writes
+		if t, d, err := infixTableFromMap(w, fd); err == nil {
+			return t, d, nil
+		} else if err != errNoMapTable {
+			return nil, nil, err
+		}
+	}
 	if sw == nil || sw.Tag == nil {
 		return nil, nil, fmt.Errorf("getInfixOpInfo is not a switch over its argument")
 	}
@@ -179,6 +189,10 @@ func identShaped(s string) bool {
 }
 
 func runC15(w *World, r *Report) {
+	if kc, kn := ruleCheckConstants(w, r); true {
+		// the infix parser keeps stack heights: none of them may be narrowed (R-WIDTH)
+		ruleWidth(w, r, kc, kn)
+	}
 	ruleLeafFirst(w, r)
 	const rule = "R-PREC"
 	r.Rule(rule, "precedence/arity table of infix operators: documented level order, arities, coverage of every symbolic operator of the operator table", 14)
@@ -516,7 +530,7 @@ func onlyReturnsFrom(b *ssa.BasicBlock) bool {
 	return true
 }
 
-var c15Witnesses = append(append(append(wave4WitnessesC15, infixWholeWitnesses...), leafFirstWitnesses...), []Witness{
+var c15Witnesses = append(append(append(append(wave4WitnessesC15, infixWholeWitnesses...), leafFirstWitnesses...), append(infixMapTableWitnesses, wave9Witnesses15...)...), []Witness{
 	{Name: "mod-at-additive-level", Rule: "R-PREC", Edits: []Edit{
 		{File: "parser.go", Old: "	case \"*\", \"/\", \"%\":\n		return infixOpInfo{precedence: 8, childCount: 2}\n	case \"+\", \"-\":", New: "	case \"*\", \"/\":\n		return infixOpInfo{precedence: 8, childCount: 2}\n	case \"+\", \"-\", \"%\":"}}},
 	{Name: "double-equals-missing", Rule: "R-PREC", Edits: []Edit{
@@ -577,4 +591,131 @@ func tokenOfStackTop(v ssa.Value) bool {
 		}
 	}
 	return false
+}
+
+
+var errNoMapTable = fmt.Errorf("no map table")
+
+func infixTableFromMap(w *World, fd *ast.FuncDecl) (map[string]infixEntry, *infixEntry, error) {
+	if len(fd.Body.List) != 2 || len(fd.Type.Params.List) != 1 {
+		return nil, nil, errNoMapTable
+	}
+	ifs, ok := fd.Body.List[0].(*ast.IfStmt)
+	ret, ok2 := fd.Body.List[1].(*ast.ReturnStmt)
+	if !ok || !ok2 || ifs.Else != nil || ifs.Init == nil || len(ret.Results) != 1 {
+		return nil, nil, errNoMapTable
+	}
+	as, ok := ifs.Init.(*ast.AssignStmt)
+	if !ok || len(as.Lhs) != 2 || len(as.Rhs) != 1 {
+		return nil, nil, errNoMapTable
+	}
+	ix, ok := ast.Unparen(as.Rhs[0]).(*ast.IndexExpr)
+	if !ok {
+		return nil, nil, errNoMapTable
+	}
+	tid, ok := ast.Unparen(ix.X).(*ast.Ident)
+	kid, ok2 := ast.Unparen(ix.Index).(*ast.Ident)
+	if !ok || !ok2 || w.Info.Uses[kid] != w.Info.Defs[fd.Type.Params.List[0].Names[0]] {
+		return nil, nil, errNoMapTable
+	}
+	// `ok` is the condition, `info` is returned
+	cid, ok := ast.Unparen(ifs.Cond).(*ast.Ident)
+	if !ok || w.Info.Uses[cid] != w.Info.Defs[as.Lhs[1].(*ast.Ident)] || len(ifs.Body.List) != 1 {
+		return nil, nil, errNoMapTable
+	}
+	r1, ok := ifs.Body.List[0].(*ast.ReturnStmt)
+	if !ok || len(r1.Results) != 1 {
+		return nil, nil, errNoMapTable
+	}
+	rid, ok := ast.Unparen(r1.Results[0]).(*ast.Ident)
+	if !ok || w.Info.Uses[rid] != w.Info.Defs[as.Lhs[0].(*ast.Ident)] {
+		return nil, nil, errNoMapTable
+	}
+	gv, isVar := w.Info.Uses[tid].(*types.Var)
+	if !isVar || gv.Parent() != w.Types.Scope() {
+		return nil, nil, errNoMapTable
+	}
+	init, _ := w.globalInit(gv.Name())
+	cl, ok := ast.Unparen(init).(*ast.CompositeLit)
+	if init == nil || !ok {
+		return nil, nil, fmt.Errorf("the infix table %s is not initialised by a map literal", gv.Name())
+	}
+	// nothing writes the table after initialisation
+	if g := w.GlobalVar(gv.Name()); g != nil {
+		for _, fn := range w.SortedFuncs(funcSet(w.Funcs)) {
+			if fn.Name() == "init" && fn.Parent() == nil && fn.Signature.Recv() == nil {
+				continue // the package initialiser is what fills the literal
+			}
+			bad := false
+			EachInstr(fn, func(in ssa.Instruction) {
+				switch x := in.(type) {
+				case *ssa.MapUpdate:
+					if a, okl := isLoad(x.Map); okl && a == ssa.Value(g) {
+						bad = true
+					}
+				case *ssa.Store:
+					if x.Addr == ssa.Value(g) {
+						bad = true
+					}
+				}
+			})
+			if bad {
+				return nil, nil, fmt.Errorf("the infix table %s is written in %s", gv.Name(), w.Name(fn))
+			}
+		}
+	}
+	lit := func(e ast.Expr, pos token.Pos) (*infixEntry, error) {
+		c, ok := ast.Unparen(e).(*ast.CompositeLit)
+		if !ok {
+			return nil, fmt.Errorf("table value is not a literal at %s", w.Pos(e.Pos()))
+		}
+		out := &infixEntry{pos: pos}
+		for i, el := range c.Elts {
+			name, val := "", el
+			if kv, ok := el.(*ast.KeyValueExpr); ok {
+				name, val = kv.Key.(*ast.Ident).Name, kv.Value
+			} else if i == 0 {
+				name = "precedence"
+			} else {
+				name = "childCount"
+			}
+			tv := w.Info.Types[val]
+			if tv.Value == nil || tv.Value.Kind() != constant.Int {
+				return nil, fmt.Errorf("non-constant %s at %s", name, w.Pos(val.Pos()))
+			}
+			v, _ := constant.Int64Val(tv.Value)
+			switch name {
+			case "precedence":
+				out.prec = v
+			case "childCount":
+				out.arity = v
+			}
+		}
+		return out, nil
+	}
+	table := map[string]infixEntry{}
+	for _, el := range cl.Elts {
+		kv, ok := el.(*ast.KeyValueExpr)
+		if !ok {
+			return nil, nil, fmt.Errorf("table element without key at %s", w.Pos(el.Pos()))
+		}
+		tv := w.Info.Types[kv.Key]
+		if tv.Value == nil || tv.Value.Kind() != constant.String {
+			return nil, nil, fmt.Errorf("non-constant table key at %s", w.Pos(kv.Key.Pos()))
+		}
+		e, err := lit(kv.Value, kv.Pos())
+		if err != nil {
+			return nil, nil, err
+		}
+		k := constant.StringVal(tv.Value)
+		if _, dup := table[k]; dup {
+			return nil, nil, fmt.Errorf("duplicate table key %q", k)
+		}
+		table[k] = *e
+	}
+	d, err := lit(ret.Results[0], ret.Pos())
+	if err != nil {
+		return nil, nil, err
+	}
+	return table, d, nil
 }
